@@ -180,6 +180,39 @@ def correspond(ctx, scale):
                 if kind == 'simvq' and not stepped and not torch.equal(eff0, mod.codebook.detach()):
                     failures.append({'key': 'simvq:effective-codebook-moved', 'what': f'SimVQ: effective codebook changed without any optimiser step ({trace})', 'case': dict(kind=kind, ops=trace)})
                     break
+            # two objects: a deep copy (an EMA / teacher copy) is a module of its own - training the ORIGINAL afterwards must not move the copy's
+            # effective codebook, outputs or state (a closure or tensor handle shared through deepcopy is invisible on a single module)
+            if params and rep % 2 == 0:
+                try:
+                    import copy as _copy
+                    cp = _copy.deepcopy(mod)
+                    cp.eval()
+                    with torch.no_grad():
+                        o_before = [t.clone() for t in (cp(fixed_x) if isinstance(cp(fixed_x), tuple) else (cp(fixed_x),)) if isinstance(t, torch.Tensor)]
+                    sd_before = {k: v.clone() for k, v in cp.state_dict().items()}
+                    eff_before = cp.codebook.detach().clone() if kind == 'simvq' else None
+                    opt2 = Adam(params, lr=0.1)
+                    mod.train()
+                    for _ in range(3):
+                        xg = torch.randn(2, 5, dim)
+                        ret = mod(xg)
+                        outs = [t for t in (ret if isinstance(ret, tuple) else (ret,)) if isinstance(t, torch.Tensor) and t.dtype.is_floating_point and t.requires_grad]
+                        if outs:
+                            opt2.zero_grad()
+                            sum((o ** 2).sum() for o in outs).backward()
+                            opt2.step()
+                    with torch.no_grad():
+                        o_after = [t.clone() for t in (cp(fixed_x) if isinstance(cp(fixed_x), tuple) else (cp(fixed_x),)) if isinstance(t, torch.Tensor)]
+                    evaluations += 1
+                    dist['copy_independence'] = dist.get('copy_independence', 0) + 1
+                    moved = [i for i, (a_, b_) in enumerate(zip(o_before, o_after)) if a_.shape != b_.shape or not torch.equal(a_, b_)]
+                    sd_after = cp.state_dict()
+                    moved_sd = [k for k in sd_before if not torch.equal(sd_before[k], sd_after[k])]
+                    if moved or moved_sd or (eff_before is not None and not torch.equal(eff_before, cp.codebook.detach())):
+                        failures.append({'key': f'{kind}:deepcopy-follows-original', 'what': f'{kind}: after training the ORIGINAL for 3 optimiser steps, its deep copy returns different results for the same input '
+                                         f'(outputs {moved}, state {moved_sd[:3]}): the copy shares something with the original', 'case': dict(kind=kind, ops=trace)})
+                except Exception as ex:
+                    failures.append({'key': f'{kind}:deepcopy-independence:exception:{type(ex).__name__}', 'what': f'{kind}: {ex!r}', 'case': dict(kind=kind, ops=trace)})
             nontrivial += stepped or kind == 'rpq'
             dist[kind] += 1
             if len(samples) < 4:
